@@ -1,3 +1,3 @@
 INIT Init
 NEXT Next
-INVARIANTS C12_NoDoubleRelease C12_AppHeldStable C12_NoUseAfterRelease C12_Ran
+INVARIANTS C12_NoDoubleRelease C12_AppHeldStable C12_NoUseAfterRelease C12_CopiesIntact C12_Ran
